@@ -4,3 +4,4 @@ import Drv.Slice
 import Drv.Bonf
 import Drv.DepGraph
 import Drv.EnvP
+import Drv.RunCmd
